@@ -67,6 +67,10 @@ fn main() {
         "c15" => fam_codec::run_c15(&mut out, &mut rng, args.thorough, only),
         #[cfg(feature = "easy")]
         "c13" => fam_codec::run_c13(&mut out, &mut rng, args.thorough, only),
+        #[cfg(all(feature = "easy", feature = "std"))]
+        "c12" => fam_stream::run_c12(&mut out, &mut rng, args.thorough, only, !args.extra.iter().any(|x| x == "--no-interrupts")),
+        #[cfg(all(feature = "easy", feature = "std"))]
+        "misreport" => fam_stream::run_misreport(&mut out, &mut rng, only),
         "len_sweep" => fam_len::sweep(&mut out, 16),
         "len_codes" => fam_len::codes(&mut out),
         _ => usage(),
